@@ -83,11 +83,40 @@ again when the state is written, a variable stands for the rest of the state -- 
 has neither `g` nor the variable -/
 theorem C12_old_order_fails_on_witness :
     Scrut.StateFile.source Scrut.StateFile.fresh
-        (Scrut.StateFile.persistOld ⟨false, [⟨7, true⟩], [(1, 2)]⟩)
-      = ⟨false, [], []⟩ ∧
+        (Scrut.StateFile.persistOld { extglob := false, funcs := [⟨7, true⟩], vars := [(1, 2)] })
+      = { extglob := false, funcs := [], vars := [] } ∧
     Scrut.StateFile.source Scrut.StateFile.fresh
-        (Scrut.StateFile.persist ⟨false, [⟨7, true⟩], [(1, 2)]⟩)
-      = ⟨false, [⟨7, true⟩], [(1, 2)]⟩ := by
+        (Scrut.StateFile.persist { extglob := false, funcs := [⟨7, true⟩], vars := [(1, 2)] })
+      = { extglob := false, funcs := [⟨7, true⟩], vars := [(1, 2)] } := by
+  decide
+
+/-- the order before fix 6fb091a (`set +o` in front of `shopt -p`): `set -E` with `extdebug` off -- restoring
+`shopt -u extdebug` afterwards switches `errtrace` off again, the next process does not have it -/
+theorem C12_set_first_order_fails_on_witness :
+    Scrut.StateFile.source Scrut.StateFile.fresh
+        (Scrut.StateFile.persistSetFirst { extglob := false, errtrace := true, funcs := [], vars := [(1, 2)] })
+      = { extglob := false, errtrace := false, funcs := [], vars := [(1, 2)] } := by
+  decide
+
+/-- **C12** (the hook that writes the state file): whatever `errexit` and `noclobber` are in the shell of the
+test case and whether or not an earlier test case left a state file, the complete state is written and the
+test case ends with the exit status of its own command. -/
+theorem C12_hook_survives_options (h : Scrut.StateFile.Hook) (s : Scrut.StateFile.St) (code : Nat) :
+    Scrut.StateFile.writeState true true h s code = (some (Scrut.StateFile.persist s), code) :=
+  Scrut.StateFile.writeState_now h s code
+
+/-- the hook before fix 296e2dd (`shopt -p extglob` unguarded) under `set -e` with `extglob` off: it ends behind
+that command -- the variables are not written and the test case, whose command ended with 0, ends with 1 -/
+theorem C12_unguarded_hook_fails_on_witness :
+    Scrut.StateFile.writeState false true ⟨true, false, none⟩ { extglob := false, funcs := [], vars := [(1, 2)] } 0
+      = (some [.setExtdebug false, .setExtglob false, .setErrtrace false, .setExtglob true, .setExtglob false], 1) := by
+  decide
+
+/-- the redirection before fix 79ceed0 (`>` instead of `>|`) under `set -C` when an earlier test case left a
+state file: the old file stays, nothing of this test case is carried -/
+theorem C12_clobber_hook_fails_on_witness :
+    Scrut.StateFile.writeState true false ⟨false, true, some [.setVar 1 1]⟩ { extglob := false, funcs := [], vars := [(1, 2)] } 0
+      = (some [.setVar 1 1], 0) := by
   decide
 
 /-! Non-vacuity of `Benign`: assign, export, modify, unset an own variable. -/
